@@ -74,7 +74,18 @@ func (w *World) intParamCtx(fn *ssa.Function, pi int, within map[*ssa.Function]b
 			}
 			sites++
 			f := w.flow(caller)
-			s, _ := f.ValueAt(cs.call.Call.Args[pi], cs.call.Block())
+			arg := cs.call.Call.Args[pi]
+			s, _ := f.ValueAt(arg, cs.call.Block())
+			// an argument that is itself the caller's size parameter: look one level further up
+			if p2, isP := arg.(*ssa.Parameter); isP && caller != fn {
+				for qi, q := range caller.Params {
+					if q == p2 {
+						if up := w.intParamCtx(caller, qi, within); up != nil {
+							s = up
+						}
+					}
+				}
+			}
 			if s == nil {
 				return nil
 			}
@@ -226,11 +237,14 @@ func (w *World) protected(fn *ssa.Function, memo map[*ssa.Function]int) (bool, s
 			if !ok {
 				continue
 			}
-			mc, ok := df.Call.Value.(*ssa.MakeClosure)
-			if !ok {
+			var cf *ssa.Function
+			if mc, ok := df.Call.Value.(*ssa.MakeClosure); ok {
+				cf = mc.Fn.(*ssa.Function)
+			} else if sc := df.Call.StaticCallee(); sc != nil && w.inPkg(sc) && sc.Blocks != nil {
+				cf = sc // defer recoverInto(&obj, &err)
+			} else {
 				continue
 			}
-			cf := mc.Fn.(*ssa.Function)
 			callsRecover, setsErr := false, false
 			rePanics := false
 			for _, cb := range cf.Blocks {
@@ -246,6 +260,12 @@ func (w *World) protected(fn *ssa.Function, memo map[*ssa.Function]int) (bool, s
 					if st, ok := ci.(*ssa.Store); ok {
 						if fv, ok := st.Addr.(*ssa.FreeVar); ok && isErrorType(fv.Type().Underlying().(*types.Pointer).Elem()) {
 							if !isNilConst(st.Val) {
+								setsErr = true
+							}
+						}
+						// a named recovery function assigns through a *error parameter
+						if prm, ok := st.Addr.(*ssa.Parameter); ok {
+							if pt, ok := prm.Type().Underlying().(*types.Pointer); ok && isErrorType(pt.Elem()) && !isNilConst(st.Val) {
 								setsErr = true
 							}
 						}
@@ -770,10 +790,10 @@ func rulesC09(w *World, r *Report) {
 	c := w.codecs()["string"]
 	hasN := false
 	if c != nil && c.Enc != nil {
-		f := w.flow(c.Enc)
-		for _, fm := range w.litForms(c.Enc) {
-			if len(fm.Octets) == 1 {
-				if s, _ := f.ValueAt(fm.Octets[0], fm.Block); s != nil && s.Equal(single('N')) {
+		ei := w.encForms(c.Enc)
+		for _, fm := range ei.forms {
+			if len(fm.Oct) == 1 && !fm.Open {
+				if s, _ := ei.px.evalOver(fm, fm.Oct[0]); s != nil && s.Equal(single('N')) {
 					hasN = true
 				}
 			}
@@ -784,17 +804,8 @@ func rulesC09(w *World, r *Report) {
 		w.ruleLoopExits(r, "C09.R3 null is a value, not a terminator", false)
 		// the string decoder accepts N
 		if c.Dec != nil {
-			fd := w.flow(c.Dec)
-			forms, err := w.decForms(c.Dec, fd)
-			ok := false
-			if err == nil {
-				for _, df := range forms {
-					if !df.IsErr && df.Tags.Equal(single('N')) && df.Payload == 0 {
-						ok = true
-					}
-				}
-			}
-			r.add("C09.R3 null is a value, not a terminator", fnName(c.Dec)+" · accepts N as the empty string", w.pos(c.Dec.Pos()), ok, "a nil-error return is reached for tag N without pulling payload")
+			run := w.decTable(c.Dec)['N']
+			r.add("C09.R3 null is a value, not a terminator", fnName(c.Dec)+" · accepts N as the empty string", w.pos(c.Dec.Pos()), run.OK && run.Payload == 0 && !run.Unknown, "a nil-error return is reached for tag N without pulling payload")
 		}
 	} else {
 		r.note("the string encoder has no N form: R3 generates no obligations")
